@@ -216,6 +216,77 @@ func genSpatial(g *vlib.G) {
 		t.Outcome("r2-vec")
 	})
 
+	// Rotations by tiny angles and by angles next to multiples of pi/2 (identity and quarter-turn shortcuts),
+	// with far-apart points. Oracle: the definition q + R(alpha)(p-q) with math.Sincos in float64; every
+	// product and sum of the definition rounds once, so the bound is a few ulps of |p-q|+|q| (a shortcut taken
+	// for a non-zero angle is off by |alpha mod 2pi|*|p-q|).
+	rotAngles := func() []float64 {
+		var out []float64
+		for k := -4; k <= 8; k++ {
+			base := float64(k) * math.Pi / 2
+			for _, d := range []float64{0, 1e-300, 1e-17, 1e-12, 1e-9, 3e-9, 1e-8, 1e-7, 1e-6, 1e-3} {
+				out = append(out, base+d, base-d)
+			}
+		}
+		return append(out, 0.3, -1.1, 2*math.Pi, -2*math.Pi, 100*math.Pi, 1e6)
+	}()
+	g.Case("r2 rotations by tiny angles and near multiples of pi/2", func(t *vlib.T) {
+		pts := []r2.Vec{{X: 1, Y: 0}, {X: 3, Y: 4}, {X: -2, Y: 0.5}, {X: 1e6, Y: -3e5}, {X: -7e5, Y: 2e6}, {X: 1e150, Y: 1e150}, {X: 0, Y: 0}}
+		n := 0
+		for _, q := range pts {
+			for _, p := range pts {
+				o := r2.Vec{X: p.X - q.X, Y: p.Y - q.Y}
+				tol := 8 * 0x1p-52 * (math.Hypot(o.X, o.Y) + math.Hypot(q.X, q.Y))
+				for _, alpha := range rotAngles {
+					n++
+					sin, cos := math.Sincos(alpha)
+					want := r2.Vec{X: (o.X*cos - o.Y*sin) + q.X, Y: (o.X*sin + o.Y*cos) + q.Y}
+					for k, got := range []r2.Vec{r2.Rotate(p, alpha, q), r2.NewRotation(alpha, q).Rotate(p)} {
+						if !near(got.X, want.X, tol) || !near(got.Y, want.Y, tol) {
+							t.Failf("r2 rotation %d of %v by %v about %v = %v want %v (error %g, %g; bound %g)", k, p, alpha, q, got, want, got.X-want.X, got.Y-want.Y, tol)
+							return
+						}
+					}
+				}
+			}
+		}
+		t.Count("rotations", int64(n))
+		t.Nontrivial()
+		t.Outcome("r2-rot-angles")
+	})
+	g.Case("r3 rotations by tiny angles and near multiples of pi/2", func(t *vlib.T) {
+		pts := []r3.Vec{{X: 1, Y: 0, Z: 0}, {X: 3, Y: 4, Z: -1}, {X: 1e6, Y: -3e5, Z: 2e5}, {X: 0, Y: 0, Z: 7}, {X: 1e150, Y: -1e150, Z: 1e149}}
+		axes := []r3.Vec{{X: 1}, {Y: 1}, {Z: 1}, {Z: -2}, {X: 1, Y: 1}, {X: 1, Y: -2, Z: 3}, {X: 1e-3, Y: 0, Z: 1e3}}
+		n := 0
+		for _, axis := range axes {
+			k := r3.Scale(1/math.Sqrt(r3.Norm2(axis)), axis)
+			for _, p := range pts {
+				tol := 64 * 0x1p-52 * math.Sqrt(p.X*p.X+p.Y*p.Y+p.Z*p.Z)
+				for _, alpha := range rotAngles {
+					n++
+					s, c := math.Sincos(alpha)
+					kxp := r3.Vec{X: k.Y*p.Z - k.Z*p.Y, Y: k.Z*p.X - k.X*p.Z, Z: k.X*p.Y - k.Y*p.X}
+					kp := k.X*p.X + k.Y*p.Y + k.Z*p.Z
+					want := r3.Vec{
+						X: p.X*c + kxp.X*s + k.X*kp*(1-c),
+						Y: p.Y*c + kxp.Y*s + k.Y*kp*(1-c),
+						Z: p.Z*c + kxp.Z*s + k.Z*kp*(1-c),
+					}
+					rot := r3.NewRotation(alpha, axis)
+					for w, got := range []r3.Vec{r3.Rotate(p, alpha, axis), rot.Rotate(p), rot.Mat().MulVec(p)} {
+						if !near(got.X, want.X, tol) || !near(got.Y, want.Y, tol) || !near(got.Z, want.Z, tol) {
+							t.Failf("r3 rotation %d of %v by %v about %v = %v want %v (bound %g)", w, p, alpha, axis, got, want, tol)
+							return
+						}
+					}
+				}
+			}
+		}
+		t.Count("rotations", int64(n))
+		t.Nontrivial()
+		t.Outcome("r3-rot-angles")
+	})
+
 	g.Case("r3 rotations against Rodrigues' formula", func(t *vlib.T) {
 		n := 0
 		for ai, axis := range v3 {
